@@ -91,8 +91,11 @@ def leaf(rng):
         return lit_int(-v, "-%d" % v)
     if r < 0.66:
         return lit_float(rng.choice(["1.5", "0.25", "2e3", "-0.5"]))
-    if r < 0.76:
+    if r < 0.74:
         return lit_str(rng.choice([b"", b"s", b"hi there"]))
+    if r < 0.76:     # literals that span lines / contain multi-byte text: later tokens' line and column depend on them
+        return rng.choice([lit_str(b"a\nb", '"""a\nb"""'), lit_str("é世".encode(), '"é世"'), lit_str(b"x\n\ny", "\'\'\'x\n\ny\'\'\'"),
+                           lit_str(b"q", "'q'")])
     if r < 0.82:
         return lit_bool(rng.random() < 0.5, rng.choice([None, None, "TRUE", "False"]) if False else None)
     if r < 0.86:
